@@ -9,7 +9,7 @@ import genlib as G
 
 F = "routee-compass/src/app/search/search_app.rs"
 SI = "routee-compass-core/src/algorithm/search/search_instance.rs"
-OBLIGATIONS = ["build_search_instance"]
+OBLIGATIONS = ["build_search_instance", "run_vertex_oriented", "run_edge_oriented", "run"]
 MUST_FAIL = ["vacuity_probe"]
 
 HEAD = """#![allow(unused_imports, unused_variables, dead_code, unused_mut, unused_parens, unused_assignments)]
@@ -37,6 +37,20 @@ verus! {
 #[verifier::external_body] pub struct CompassConfigurationError { _p: u8 }
 #[verifier::external_body] pub struct ErrText { _p: u8 }
 pub enum SearchError { BuildError(ErrText), Other }
+// ---- what SearchApp::run / run_vertex_oriented / run_edge_oriented need ----
+#[verifier::external_body] pub struct InputPluginError { _p: u8 }
+pub enum PluginError { InputPluginFailed { source: InputPluginError }, Other }
+pub enum CompassAppError { PluginError(PluginError), SearchFailure(SearchError), Other }
+#[derive(Clone, Copy)] pub struct VertexId(pub usize);
+#[derive(Clone, Copy)] pub struct EdgeId(pub usize);
+pub enum Direction { Forward, Reverse }
+pub enum SearchOrientation { Vertex, Edge }
+#[verifier::external_body] pub struct Routes { _p: u8 }                  // Vec<Vec<EdgeTraversal>>
+#[verifier::external_body] pub struct Trees { _p: u8 }                   // Vec<HashMap<VertexId, SearchTreeBranch>>
+#[verifier::external_body] pub struct LocalTime { _p: u8 }               // chrono::DateTime<Local>
+#[verifier::external_body] pub struct Duration { _p: u8 }
+pub struct SearchAlgorithmResult { pub trees: Trees, pub routes: Routes, pub iterations: u64 }
+pub struct SearchAppResult { pub routes: Routes, pub trees: Trees, pub search_executed_time: String, pub search_runtime: Duration, pub iterations: u64 }
 """
 
 FROMS = "".join("""
@@ -82,6 +96,35 @@ pub mod search_app_ops { use super::*;
         ensures r is Ok <==> features_of(*q, tm, am) is Some, r matches Ok(v) ==> Some(v@) == features_of(*q, tm, am) { unimplemented!() }
 }
 #[verifier::external_body] pub fn verif_err_text(e: CompassConfigurationError) -> ErrText { unimplemented!() }
+impl vstd::std_specs::convert::FromSpecImpl<SearchError> for CompassAppError {
+    open spec fn obeys_from_spec() -> bool { false }
+    open spec fn from_spec(v: SearchError) -> CompassAppError { arbitrary() }
+}
+impl From<SearchError> for CompassAppError { #[verifier::external_body] fn from(e: SearchError) -> CompassAppError { unimplemented!() } }
+// ---- the query's matched origin / destination (InputJsonExtensions: deterministic reads; None: missing or ill-typed) ----
+pub uninterp spec fn q_origin_vertex(q: Value) -> Option<VertexId>;
+pub uninterp spec fn q_destination_vertex(q: Value) -> Option<Option<VertexId>>;
+pub uninterp spec fn q_origin_edge(q: Value) -> Option<EdgeId>;
+pub uninterp spec fn q_destination_edge(q: Value) -> Option<Option<EdgeId>>;
+impl Value {
+    #[verifier::external_body] pub fn get_origin_vertex(&self) -> (r: Result<VertexId, InputPluginError>) ensures r is Ok <==> q_origin_vertex(*self) is Some, r matches Ok(v) ==> Some(v) == q_origin_vertex(*self) { unimplemented!() }
+    #[verifier::external_body] pub fn get_destination_vertex(&self) -> (r: Result<Option<VertexId>, InputPluginError>) ensures r is Ok <==> q_destination_vertex(*self) is Some, r matches Ok(v) ==> Some(v) == q_destination_vertex(*self) { unimplemented!() }
+    #[verifier::external_body] pub fn get_origin_edge(&self) -> (r: Result<EdgeId, InputPluginError>) ensures r is Ok <==> q_origin_edge(*self) is Some, r matches Ok(v) ==> Some(v) == q_origin_edge(*self) { unimplemented!() }
+    #[verifier::external_body] pub fn get_destination_edge(&self) -> (r: Result<Option<EdgeId>, InputPluginError>) ensures r is Ok <==> q_destination_edge(*self) is Some, r matches Ok(v) ==> Some(v) == q_destination_edge(*self) { unimplemented!() }
+}
+/// SearchAlgorithm::run_vertex_oriented / run_edge_oriented (units c01_dispatch, AL, c13_*): deterministic in (endpoints, query, direction, instance)
+pub uninterp spec fn alg_v(a: &SearchAlgorithm, o: VertexId, d: Option<VertexId>, q: Value, dir: Direction, si: SearchInstance) -> Option<SearchAlgorithmResult>;
+pub uninterp spec fn alg_e(a: &SearchAlgorithm, o: EdgeId, d: Option<EdgeId>, q: Value, dir: Direction, si: SearchInstance) -> Option<SearchAlgorithmResult>;
+impl SearchAlgorithm {
+    #[verifier::external_body] pub fn run_vertex_oriented(&self, o: VertexId, d: Option<VertexId>, q: &Value, dir: &Direction, si: &SearchInstance) -> (r: Result<SearchAlgorithmResult, SearchError>)
+        ensures r is Ok <==> alg_v(self, o, d, *q, *dir, *si) is Some, r matches Ok(x) ==> Some(x) == alg_v(self, o, d, *q, *dir, *si) { unimplemented!() }
+    #[verifier::external_body] pub fn run_edge_oriented(&self, o: EdgeId, d: Option<EdgeId>, q: &Value, dir: &Direction, si: &SearchInstance) -> (r: Result<SearchAlgorithmResult, SearchError>)
+        ensures r is Ok <==> alg_e(self, o, d, *q, *dir, *si) is Some, r matches Ok(x) ==> Some(x) == alg_e(self, o, d, *q, *dir, *si) { unimplemented!() }
+}
+/// rule R-io: the wall clock
+#[verifier::external_body] pub fn verif_now() -> LocalTime { unimplemented!() }
+#[verifier::external_body] pub fn verif_runtime(start: &LocalTime, end: &LocalTime) -> Duration { unimplemented!() }
+#[verifier::external_body] pub fn verif_rfc3339(t: &LocalTime) -> String { unimplemented!() }
 """
 
 
@@ -96,21 +139,63 @@ def build(x):
     si = dyn(x.item_text(SI, "struct SearchInstance"))
     x.note("R3-dyn", "struct SearchApp / struct SearchInstance: `Arc<dyn Trait>` written `Arc<Trait-shim>` (dynamic dispatch = the shim's deterministic contract)")
     parts.append(sa + "\n" + si + "\n")
+    parts.append("""
+/// the search instance built for a query (the postcondition of build_search_instance)
+pub open spec fn instance_for(app: &SearchApp, q: Value, si: SearchInstance) -> bool {
+    (tm_of(&*app.traversal_model_service, q) matches Some(tm) && (am_of(&*app.access_model_service, q) matches Some(am)
+        && si.traversal_model == tm && si.access_model == am
+        && (features_of(q, tm, am) matches Some(fs) && (extend_of(&*app.state_model, fs) matches Some(sm) && *si.state_model == sm
+        && cost_of(&*app.cost_model_service, q, si.state_model) == Some(*si.cost_model)
+        && fm_of(&*app.frontier_model_service, q, si.state_model) == Some(si.frontier_model))))
+        && si.directed_graph == app.directed_graph && si.termination_model == app.termination_model)
+}
+""")
     f = x.fn(F, "impl SearchApp :: fn build_search_instance")
     f.rewrite(r"query: &serde_json::Value,", "query: &Value,", 1, 1, rule="R-path")
     f.rewrite(r"\.map_err\(\|e\| SearchError::BuildError\(e\.to_string\(\)\)\)", ".map_err(|e: CompassConfigurationError| -> (er: SearchError) { SearchError::BuildError(verif_err_text(e)) })", 1, 1, rule="R-format")
     f.name_return("r")
     f.add_spec("""        ensures
-            r matches Ok(si) ==> (tm_of(&*self.traversal_model_service, *query) matches Some(tm) && (am_of(&*self.access_model_service, *query) matches Some(am)
-                && si.traversal_model == tm && si.access_model == am
-                // C11: the per-query state model is the CONFIGURED model extended by the features collected for this query from these very models and the query
-                && (features_of(*query, tm, am) matches Some(fs) && (extend_of(&*self.state_model, fs) matches Some(sm) && *si.state_model == sm
-                // C02 / C11: the cost model and the frontier model are built against THAT state model -- the one the search instance carries -- not the configured one
-                && cost_of(&*self.cost_model_service, *query, si.state_model) == Some(*si.cost_model)
-                && fm_of(&*self.frontier_model_service, *query, si.state_model) == Some(si.frontier_model))))
-                // graph and limits are the application's
-                && si.directed_graph == self.directed_graph && si.termination_model == self.termination_model),""")
-    parts.append("impl SearchApp {\n" + f.text + "\n}\n")
+            // C11: the per-query state model is the CONFIGURED model extended by the features collected for this query from these very models and the query;
+            // C02 / C11: the cost model and the frontier model are built against THAT state model -- the one the search instance carries -- not the configured one;
+            // graph and limits are the application's
+            r matches Ok(si) ==> instance_for(self, *query, si),""")
+    fns = [f.text]
+    # ---- run_vertex_oriented / run_edge_oriented: the search runs between the QUERY's matched endpoints on the instance built for THIS query ----
+    for name, kind, alg in (("run_vertex_oriented", "vertex", "alg_v"), ("run_edge_oriented", "edge", "alg_e")):
+        g = x.fn(F, "impl SearchApp :: fn " + name)
+        g.rewrite(r"query: &serde_json::Value,", "query: &Value,", 1, 1, rule="R-path")
+        g.rewrite(r"\.map_err\(\|e\| \{\s*CompassAppError::PluginError\(PluginError::InputPluginFailed \{ source: e \}\)\s*\}\)", ".map_err(|e: InputPluginError| -> (er: CompassAppError) { CompassAppError::PluginError(PluginError::InputPluginFailed { source: e }) })", 2, 2, rule="R-closure")
+        g.rewrite(r"\.map\(\|search_result\| \(search_result, search_instance\)\)", ".map(|search_result: SearchAlgorithmResult| -> (verif_p: (SearchAlgorithmResult, SearchInstance)) ensures verif_p == (search_result, search_instance) { (search_result, search_instance) })", 1, 1, rule="R-closure")
+        g.rewrite(r"\.map_err\(CompassAppError::SearchFailure\)", ".map_err(|e: SearchError| -> (er: CompassAppError) { CompassAppError::SearchFailure(e) })", 1, 1, rule="R-closure")
+        g.name_return("r")
+        g.add_spec("""        ensures
+            // the search is run FORWARD from the %(k)s the query was matched to, to its matched destination (none: a tree search), with the query itself and on the
+            // instance built for THIS query; what the algorithm returns is handed back together with that instance
+            r matches Ok(p) ==> (q_origin_%(k)s(*query) matches Some(o) && (q_destination_%(k)s(*query) matches Some(d)
+                && instance_for(self, *query, p.1) && %(alg)s(&self.search_algorithm, o, d, *query, Direction::Forward, p.1) == Some(p.0))),
+            // a query without a (well-typed) matched origin is an error, never a search from somewhere else
+            q_origin_%(k)s(*query) is None ==> r is Err,
+            q_destination_%(k)s(*query) is None ==> r is Err,""" % dict(k=kind, alg=alg))
+        fns.append(g.text)
+    # ---- run ----
+    rn = x.fn(F, "impl SearchApp :: fn run")
+    rn.rewrite(r"query: &serde_json::Value,", "query: &Value,", 1, 1, rule="R-path")
+    rn.strip_macro_stmts(r"log::\w+")
+    rn.rewrite(r"Local::now\(\)", "verif_now()", 2, 2, rule="R-io")
+    rn.rewrite(r"\(search_end_time - search_start_time\)\s*\.to_std\(\)\s*\.unwrap_or\(time::Duration::ZERO\)", "verif_runtime(&search_start_time, &search_end_time)", 1, 1, rule="R-io")
+    rn.rewrite(r"search_start_time\.to_rfc3339\(\)", "verif_rfc3339(&search_start_time)", 1, 1, rule="R-io")
+    x.note("R-io", "SearchApp::run: `Local::now()`, the runtime subtraction and `to_rfc3339()` written as opaque reads of the wall clock")
+    rn.name_return("r")
+    rn.add_spec("""        ensures
+            // the routes, trees and iteration count of the response are the algorithm's own, from the search in the configured orientation
+            r matches Ok(p) ==> instance_for(self, *query, p.1) && match *search_orientation {
+                SearchOrientation::Vertex => (q_origin_vertex(*query) matches Some(o) && (q_destination_vertex(*query) matches Some(d)
+                    && (alg_v(&self.search_algorithm, o, d, *query, Direction::Forward, p.1) matches Some(res) && p.0.routes == res.routes && p.0.trees == res.trees && p.0.iterations == res.iterations))),
+                SearchOrientation::Edge => (q_origin_edge(*query) matches Some(o) && (q_destination_edge(*query) matches Some(d)
+                    && (alg_e(&self.search_algorithm, o, d, *query, Direction::Forward, p.1) matches Some(res) && p.0.routes == res.routes && p.0.trees == res.trees && p.0.iterations == res.iterations))),
+            },""")
+    fns.append(rn.text)
+    parts.append("impl SearchApp {\n" + "\n".join(fns) + "\n}\n")
     parts.append("""
 // vacuity guard: MUST FAIL
 pub fn vacuity_probe(a: &SearchApp, q: &Value) -> (b: bool) ensures false { a.build_search_instance(q).is_ok() }
